@@ -76,6 +76,8 @@ def run(ctx: Ctx, rep: Report) -> None:
     rep.adopt_rules(ctx.sub_run("c03", rep), "C01-R11", ["C03-R2", "C03-R3"])
     rep.adopt_rules(ctx.sub_run("c15", rep), "C01-R12", ["C15-R4"], containing="walk")
     rep.adopt_rules(ctx.sub_run("c12", rep), "C01-R12", ["C12-R4"], containing="only in Report")
+    # a walk that lasts longer than the 150 s window is not cut short by a client clock that stands still or runs backwards
+    rep.adopt_rules(ctx.sub_run("c12", rep), "C01-R12", ["C12-R3"], containing="engine time")
 
 
 def fetcher_raises(ctx: Ctx, fn: FuncInfo, seam: Optional[FuncInfo], depth: int = 0, seen=None) -> List[Tuple[FuncInfo, ast.Raise, ClassInfo]]:
@@ -362,6 +364,37 @@ def is_order_preserving_of(expr: ast.AST, param: str) -> bool:
     return False
 
 
+def continuation_by_evaluation(ctx: Ctx, wm: WalkModel, w: FuncInfo, exp: ast.AST, uname: str):
+    """
+    The expression that builds the next request, evaluated on what the repository's own "unfinished roots" function
+    returns for a regrouped batch of three roots (one continues after one binding, one after two, one is finished):
+    expected are the last OIDs of the two unfinished roots, in root order.  None when not evaluable.
+    """
+    from ..engine.minieval import MiniEval, OidVal, Raised, Unevaluable
+    from .walkeval import mk_varbind
+
+    roots = [OidVal((1, 3, 10)), OidVal((1, 3, 20)), OidVal((1, 3, 30))]
+    grouped = {
+        roots[1]: [mk_varbind(ctx, (1, 3, 20, 7), "b"), mk_varbind(ctx, (1, 3, 20, 8), "c")],
+        roots[0]: [mk_varbind(ctx, (1, 3, 10, 5), "a")],
+        roots[2]: [mk_varbind(ctx, (1, 3, 31, 1), "d")],
+    }
+    ev = MiniEval(ctx, max_steps=40000)
+    try:
+        unfinished = ev.call_function(wm.unfinished, [grouped], {})
+        got = ev.eval(w, exp, {uname: unfinished}, 0)
+    except Unevaluable:
+        return None
+    except Raised as exc:
+        return False, f"raises {exc.value!r}"
+    want = [OidVal((1, 3, 10, 5)), OidVal((1, 3, 20, 8))]
+    try:
+        got_l = list(got)
+    except TypeError:
+        return False, f"request list = {got!r}"
+    return got_l == want, f"request list = {got_l!r}, expected {want!r}"
+
+
 def none_branches(cfg, name: str):
     """(branch nodes taken when *name* is None, branch nodes taken when it is not) over the `name is [not] None` tests."""
     is_none, not_none = [], []
@@ -478,6 +511,10 @@ def check_loop(ctx: Ctx, rep: Report, wm: WalkModel, r3: str = "C01-R3", r6: str
         arg = fc.args[0] if fc.args else None
         exp = defs.expand(arg) if arg is not None else None
         ok = False
+        decided = continuation_by_evaluation(ctx, wm, w, exp, uname) if exp is not None else None
+        if decided is not None:
+            rep.check(decided[0], r6, w.site(fc), "the next request asks, for every unfinished root and in the same order, for the OID last received for it (evaluated on the unfinished list of a three-root batch)", decided[1], key=f"{w.key}|continuation-request")
+            continue
         if isinstance(exp, (ast.ListComp,)) and len(exp.generators) == 1 and not exp.generators[0].ifs:
             gen = exp.generators[0]
             row_cls = ctx.u.cls("puresnmp.util:WalkRow") if "puresnmp.util:WalkRow" in ctx.u.classes else None
